@@ -24,7 +24,8 @@ Flavs == JsonDeserialize(IOEnv.FLAV_FILE)
 NF == Len(Flavs)
 
 \* fabricated messages the puppet can insert (besides copies of its own earlier messages)
-Fab == {"HREQ", "SHD", "NST", "CCS", "APP", "KU", "CR"}
+\* APP0 = an application-data record of length zero
+Fab == {"HREQ", "SHD", "NST", "CCS", "APP", "KU", "CR", "APP0"}
 
 VARIABLES fi,      \* flavour index
           script,  \* sequence of edits applied so far: <<op, k, t>>
@@ -72,10 +73,10 @@ Admit(q) ==
     [] q = "S13_CV"    -> {"CV"}
     [] q = "S13_FIN"   -> {"FIN"}
     \* a client that advertised post_handshake_auth (it holds a certificate) admits a CertificateRequest later
-    [] q = "OPEN"      -> IF Tls13 THEN (IF Client THEN {"APP", "NST", "KU"} \cup (IF F.pha THEN {"CR"} ELSE {}) ELSE {"APP", "KU"})
+    [] q = "OPEN"      -> IF Tls13 THEN (IF Client THEN {"APP", "APP0", "NST", "KU"} \cup (IF F.pha THEN {"CR"} ELSE {}) ELSE {"APP", "APP0", "KU"})
                           \* TLS <= 1.2: renegotiation requests are refused with a warning, the
                           \* connection continues and no second handshake starts
-                          ELSE (IF Client THEN {"APP", "HREQ"} ELSE {"APP", "CH"})
+                          ELSE (IF Client THEN {"APP", "APP0", "HREQ"} ELSE {"APP", "APP0", "CH"})
     [] OTHER -> {}
 
 AfterServerHello12 == IF F.resume THEN "X_NST_CCS"
